@@ -65,7 +65,16 @@ int main(int argc, char **argv)
 		ino->base.type = SQFS_INODE_FILE;
 		ino->base.mode = 0100644;
 		ino->base.inode_number = 1;
-		sqfs_inode_set_frag_location(ino, 0xFFFFFFFF, 0xFFFFFFFF);	/* begin_file of the block processor */
+		const char *okind = "file";
+		if (!strncmp(line, "kind:", 5)) {
+			/* the other kinds: link count in both forms, xattr index in the extended one */
+			if (!strncmp(line + 5, "dir", 3)) { okind = "dir"; ino->base.type = SQFS_INODE_DIR; ino->base.mode = 040755; ino->data.dir.nlink = 1; ino->data.dir.size = 3; ino->data.dir.parent_inode = 2; }
+			else if (!strncmp(line + 5, "slink", 5)) { okind = "slink"; ino->base.type = SQFS_INODE_SLINK; ino->base.mode = 0120777; ino->data.slink.nlink = 1; ino->data.slink.target_size = 5; memcpy(ino->extra, "tgt__", 5); ino->payload_bytes_used = ino->payload_bytes_available = 5; }
+			else if (!strncmp(line + 5, "dev", 3)) { okind = "dev"; ino->base.type = SQFS_INODE_CDEV; ino->base.mode = 020600; ino->data.dev.nlink = 1; ino->data.dev.devno = 0x0501; }
+			else { okind = "ipc"; ino->base.type = SQFS_INODE_FIFO; ino->base.mode = 010600; ino->data.ipc.nlink = 1; }
+		} else {
+			sqfs_inode_set_frag_location(ino, 0xFFFFFFFF, 0xFFFFFFFF);	/* begin_file of the block processor */
+		}
 
 		for (tok = strtok(line, " \n"); tok; tok = strtok(NULL, " \n")) {
 			if (!strncmp(tok, "size:", 5)) r = sqfs_inode_set_file_size(ino, val(tok + 5));
@@ -75,6 +84,22 @@ int main(int argc, char **argv)
 			else if (!strcmp(tok, "xattr:some")) r = sqfs_inode_set_xattr_index(ino, 7);
 			else if (!strcmp(tok, "xattr:none")) r = sqfs_inode_set_xattr_index(ino, 0xFFFFFFFF);
 			else if (!strcmp(tok, "sparse")) { r = sqfs_inode_make_extended(ino); ino->data.file_ext.sparse += 512; }
+			else if (!strncmp(tok, "kind:", 5)) r = 0;
+			else if (!strncmp(tok, "nlink:", 6) && strcmp(okind, "file")) {
+				sqfs_u32 n = atoi(tok + 6);
+				r = 0;
+				switch (ino->base.type) {
+				case SQFS_INODE_DIR: ino->data.dir.nlink = n; break;
+				case SQFS_INODE_EXT_DIR: ino->data.dir_ext.nlink = n; break;
+				case SQFS_INODE_SLINK: ino->data.slink.nlink = n; break;
+				case SQFS_INODE_EXT_SLINK: ino->data.slink_ext.nlink = n; break;
+				case SQFS_INODE_CDEV: ino->data.dev.nlink = n; break;
+				case SQFS_INODE_EXT_CDEV: ino->data.dev_ext.nlink = n; break;
+				case SQFS_INODE_FIFO: ino->data.ipc.nlink = n; break;
+				case SQFS_INODE_EXT_FIFO: ino->data.ipc_ext.nlink = n; break;
+				default: r = -1;
+				}
+			}
 			else if (!strncmp(tok, "nlink:", 6)) {
 				sqfs_u32 n = atoi(tok + 6);
 				r = 0;
@@ -90,12 +115,14 @@ int main(int argc, char **argv)
 			else { fprintf(stderr, "op %s\n", tok); return 2; }
 			if (r) err = r;
 		}
-		sqfs_inode_get_file_size(ino, &size);
-		sqfs_inode_get_frag_location(ino, &fi, &fo);
-		count = size / BS;
-		if ((size % BS) && (fi == 0xFFFFFFFF || fo == 0xFFFFFFFF)) count++;
-		if (count > (huge ? MAXBLK : 4200)) return 2;
-		ino->payload_bytes_available = ino->payload_bytes_used = count * sizeof(sqfs_u32);
+		if (!strcmp(okind, "file")) {
+			sqfs_inode_get_file_size(ino, &size);
+			sqfs_inode_get_frag_location(ino, &fi, &fo);
+			count = size / BS;
+			if ((size % BS) && (fi == 0xFFFFFFFF || fo == 0xFFFFFFFF)) count++;
+			if (count > (huge ? MAXBLK : 4200)) return 2;
+			ino->payload_bytes_available = ino->payload_bytes_used = count * sizeof(sqfs_u32);
+		}
 
 		if (sqfs_file_open(&file, argv[1], SQFS_FILE_OPEN_OVERWRITE)) return 2;
 		sqfs_super_init(&super, BS, 0, SQFS_COMP_GZIP);
@@ -110,6 +137,23 @@ int main(int argc, char **argv)
 		if (!r) r = sqfs_meta_reader_read_inode(mr, &super, 0, 0, &back);
 		if (r || !back) {
 			printf("{\"err\":%d,\"io\":%d}\n", err, r);
+		} else if (strcmp(okind, "file")) {
+			sqfs_u32 nl = 0;
+			int ext = 0;
+			switch (back->base.type) {
+			case SQFS_INODE_DIR: nl = back->data.dir.nlink; break;
+			case SQFS_INODE_EXT_DIR: nl = back->data.dir_ext.nlink; ext = 1; break;
+			case SQFS_INODE_SLINK: nl = back->data.slink.nlink; break;
+			case SQFS_INODE_EXT_SLINK: nl = back->data.slink_ext.nlink; ext = 1; break;
+			case SQFS_INODE_CDEV: nl = back->data.dev.nlink; break;
+			case SQFS_INODE_EXT_CDEV: nl = back->data.dev_ext.nlink; ext = 1; break;
+			case SQFS_INODE_FIFO: nl = back->data.ipc.nlink; break;
+			case SQFS_INODE_EXT_FIFO: nl = back->data.ipc_ext.nlink; ext = 1; break;
+			default: nl = 9999;
+			}
+			sqfs_inode_get_xattr_index(back, &xi);
+			printf("{\"err\":%d,\"ext\":%s,\"size\":\"zero\",\"start\":\"zero\",\"frag\":\"none\",\"sparse\":false,\"nlink\":%u,\"xattr\":\"%s\"}\n", err,
+			       ext ? "true" : "false", nl, xi == 7 ? "some" : (xi == 0xFFFFFFFF ? "none" : (xi == 0 ? "zero" : "OTHER")));
 		} else {
 			int ext = back->base.type == SQFS_INODE_EXT_FILE;
 			sqfs_inode_get_file_size(back, &size);
